@@ -257,10 +257,12 @@ def handleSASLError (cfg : Cfg) (e : Event) : List Out :=
   if cfg.sasl.isNone then [.write capEnd] else [.inject (errorEvent (sClosing ++ e.last))]
 
 /-- `nickCollisionHandler` -/
+def collisionBase (cfg : Cfg) (st : St) : Bytes := if cfg.disableTracking then cfg.nick else getNick cfg st
+
 def nickCollision (cfg : Cfg) (st : St) (e : Event) : List Out :=
   let rejected := match e.params with
-    | _ :: n :: _ => if isValidNick n then n else getNick cfg st
-    | _ => getNick cfg st
+    | _ :: n :: _ => if isValidNick n then n else collisionBase cfg st
+    | _ => collisionBase cfg st
   let nickEv (n : Bytes) : Event := { command := cNICK, params := [n] }
   match cfg.nickCollide with
   | .none => [.send (nickEv (rejected ++ [0x5F]))]
